@@ -33,6 +33,16 @@
    at a length < 4 or at an entry that overruns the area), follows CE (block, offset, length) into the image
    (bounded hops), collects NM pieces, SL records and components, PX mode and links, SP skip, ER identifier;
    the name is LongNames.nm_join of the pieces (CONTINUE flag), the target LongNames.sl_reassemble.
+   [mrr_wf dt s] (boolean) is what the theorems assume: every record's bookkeeping (dr_len, continuation key) is what
+   RockRidge.new gives for its identifier / names / kind (so the identifier passes the guard dr_len + 28 <= 254 of
+   _rr_new and the continuation area is <= 2048), continuation areas of one block apart and inside the sector, Pack's
+   data_length invariant per directory, 32-bit fields; NO limit on depth, name or target length.  Every state
+   rr_run (rr_init v) ops reaches that passes mrr_sizes_ok is mrr_wf (Proofs/MasterRRRun.v).
+   Simplifications (trusted): one opaque 7-byte date for the record and the three TF stamps; link counts in closed form
+   (2 + sub-directories; Model/Nlink.v); uid/gid/serial 0; the extent walk through PathTable.bfs on per-record block
+   counts; the image is a finite map extent -> bytes holding ONLY directory extents and continuation blocks (zero
+   fill), the root pointer is an input (PVD, path tables, file contents are not rendered); '.' and '..' never get a
+   tracked continuation block (they `continue` before the test) and the root '.' keeps offset_cont_area = 0.
    Definitions only; proofs are in Proofs/MasterRR*.v.  Correspondence: /verif/tools/master_rr_cases.py. *)
 From Coq Require Import ZArith List Bool.
 From PV.Base Require Import Prim.
@@ -436,8 +446,8 @@ Fixpoint mrr_height (n : rnode) : nat :=
 Definition mrr_fuel (s : rstate) : nat := mrr_height (r_root s).
 
 (* ---- well-formed states ---------------------------------------------------------------------------- *)
-(* 1 <= len(identifier); the guard of DirectoryRecord._rr_new: dr_len + 28 <= 254 *)
-Definition mrr_name_ok (nm : list Z) : bool := (1 <=? zlen nm) && (Account.dr_len_of nm + len_ce <=? ALLOWED_DR_SIZE).
+(* the guard of DirectoryRecord._rr_new: dr_len + 28 <= 254 *)
+Definition mrr_name_ok (nm : list Z) : bool := Account.dr_len_of nm + len_ce <=? ALLOWED_DR_SIZE.
 
 (* the record's bookkeeping is what RockRidge.new gives for its names: dr_len, and a CE key iff a CE entry,
    with that length, inside one block *)
@@ -497,6 +507,16 @@ Definition mrr_wf (dt : list Z) (s : rstate) : bool :=
       (0 <=? r_ptr_ext s) && (mrr_layout_end s <=? 4294967296)
   end.
 
+(* the fields struct.pack checks: link counts, directory lengths, extents (for the statement about edit histories:
+   every state rr_run reaches that passes this check is well-formed, Proofs/MasterRRRun.v) *)
+Fixpoint mrr_sizes (n : rnode) : bool :=
+  (mrr_links n <=? 4294967295) &&
+  match n with
+  | RFile _ _ => true
+  | RDir _ dl kids => (dl <=? 4294967295) && forallb mrr_sizes kids
+  end.
+Definition mrr_sizes_ok (s : rstate) : bool := mrr_sizes (r_root s) && (mrr_layout_end s <=? 4294967296).
+
 (* ---- harness --------------------------------------------------------------------------------------- *)
 Fixpoint mrr_vnode_eqb (a b : vnode) : bool :=
   match a, b with
@@ -527,7 +547,7 @@ Definition mrr_case_ok (c : mrr_case) : bool :=
   let '(vc, ops, dt, (re, rl), expected, ev) := c in
   let s := rr_run (rr_init (vcode vc)) ops in
   let img := map (fun x : Z * list (Z * list Z) => (fst x, Master.ms_unrle (snd x))) expected in
-  mrr_wf dt s &&
+  mrr_wf dt s && mrr_sizes_ok s &&
   (re =? mrr_root_extent s) && (rl =? mrr_root_len s) &&
   match master_rr dt s with Some m => Master.ms_image_eqb m img | None => false end &&
   match read_rr (mrr_fuel s) img re rl with Some w => mrr_view_eqb w ev | None => false end &&
